@@ -51,6 +51,7 @@ class Ctx:
             lv = s.sx.run(mod, fn, cls=cls)
         except TooManyPaths as exc:
             raise AnalysisError('%s.%s: %s' % (mod, qual, exc))
+        lv = split_ites(lv)          # canonical form: a conditional expression in a value / effect is two paths
         s._leaves[key] = lv
         return lv
 
@@ -58,7 +59,7 @@ class Ctx:
         key = ('node', id(fn))
         if key not in s._leaves:
             try:
-                s._leaves[key] = s.sx.run(mod, fn, cls=cls)
+                s._leaves[key] = split_ites(s.sx.run(mod, fn, cls=cls))
             except TooManyPaths as exc:
                 raise AnalysisError('%s: %s' % (fn.name, exc))
         return s._leaves[key]
@@ -205,7 +206,7 @@ def fcall(name, *args):
     return ('call', ('b', name), tuple(args), ())
 
 
-def formula(rep, rule, actual, expected, where, construct, what, pattern_ok=None, sample=None):
+def formula(rep, rule, actual, expected, where, construct, what, pattern_ok=None, sample=None, conds=None):
     """obligation `actual` == `expected` as arithmetic formulas over the same leaves: decided by the structural pattern when it
     matches, else by randomised identity testing of the two terms (sa/termeval.py); not evaluable -> INCONCLUSIVE"""
     from .termeval import equivalent
@@ -215,7 +216,7 @@ def formula(rep, rule, actual, expected, where, construct, what, pattern_ok=None
     if pattern_ok:
         rep.ob(rule, True, where, sample=sample)
         return True
-    eq = equivalent(actual, expected)
+    eq = equivalent(actual, expected, conds=conds)         # compared where the path's own conditions hold (a conditional expression split into paths)
     if eq is None:
         rep.unknown('%s: %s = %s could not be compared with %s' % (construct, what, show(actual)[:80], show(expected)[:80]))
         return None
@@ -336,7 +337,18 @@ def split_ites(leaves, limit=24):
                     continue
                 n.value = subst_term(n.value, ite, repl) if n.value is not None else None
                 n.conds = [(subst_term(c0, ite, repl), t0, n0) for c0, t0, n0 in n.conds]
-                n.effects = [(e[0], subst_term(e[1], ite, repl) if isinstance(e[1], tuple) else e[1], subst_term(e[2], ite, repl) if isinstance(e[2], tuple) else e[2]) + tuple(e[3:]) for e in n.effects]
+                neff = []
+                for e in n.effects:
+                    a1 = subst_term(e[1], ite, repl) if isinstance(e[1], tuple) else e[1]
+                    a2 = subst_term(e[2], ite, repl) if isinstance(e[2], tuple) else e[2]
+                    rest = tuple(e[3:])
+                    if (a1 != e[1] or a2 != e[2]) and len(rest) >= 2 and isinstance(rest[1], int):
+                        rest = (rest[0], len(n.conds)) + rest[2:]        # the effect now happens under the condition of the conditional expression
+                    neff.append((e[0], a1, a2) + rest)
+                n.effects = neff
+                n.notes = [(nt[0], nt[1], {k_: (subst_term(v_, ite, repl) if isinstance(v_, tuple) else v_) for k_, v_ in nt[2].items()}) if isinstance(nt, tuple) and len(nt) == 3 and nt[0] == 'loop-end-env' and isinstance(nt[2], dict) else nt
+                           for nt in n.notes]
+                n.env = {k_: (subst_term(v_, ite, repl) if isinstance(v_, tuple) else v_) for k_, v_ in n.env.items()}
                 work.append(n)
     return out
 
